@@ -160,22 +160,34 @@ def slcInit (pl : SlcPayload) (crc : Bits) : Except IErr SlcObj := do
     let ok ← ofCrc (crc8Check false (sl o.enc 0 28) (bitsToNat (sl o.enc 28 36).reverse))
     pure { o with ok := ok }
 
+/-- the object `ShortLinkControl.from_bits` builds from the parsed fields -/
+def slcFields (bits : Bits) : Except IErr SlcObj :=
+  match enumOf slcosGraph (bitsToNat (sl bits 0 4)) with
+  | .error e => .error e
+  | .ok slco =>
+    if slco = slcoNull then slcInit .null (sl bits 28 36)
+    else if slco = slcoActivity then
+      match enumOf activityIdGraph (bitsToNat (sl bits 4 8)) with
+      | .error e => .error e
+      | .ok t1 =>
+        match enumOf activityIdGraph (bitsToNat (sl bits 8 12)) with
+        | .error e => .error e
+        | .ok t2 => slcInit (.activity t1 t2 (sl bits 12 20) (sl bits 20 28)) (sl bits 28 36)
+    else .error .keyError
+
 /-- `ShortLinkControl.from_bits`: the object is built from the parsed fields; when the received CRC
 field is non-zero the verdict is then taken over the bits that were received -/
-def slcDec (bits : Bits) : Except IErr SlcObj := do
-  if bits.length < 36 then throw .assertionError
-  let slco ← enumOf slcosGraph (bitsToNat (sl bits 0 4))
-  let o ←
-    if slco = slcoNull then slcInit .null (sl bits 28 36)
-    else if slco = slcoActivity then do
-      let t1 ← enumOf activityIdGraph (bitsToNat (sl bits 4 8))
-      let t2 ← enumOf activityIdGraph (bitsToNat (sl bits 8 12))
-      slcInit (.activity t1 t2 (sl bits 12 20) (sl bits 20 28)) (sl bits 28 36)
-    else throw .keyError
-  if bitsToNat (sl bits 28 36) ≠ 0 then
-    let ok ← ofCrc (crc8Check false (sl bits 0 28) (bitsToNat (sl bits 28 36).reverse))
-    pure { o with ok := ok }
-  else pure o
+def slcDec (bits : Bits) : Except IErr SlcObj :=
+  if bits.length < 36 then .error .assertionError
+  else
+    match slcFields bits with
+    | .error e => .error e
+    | .ok o =>
+      if bitsToNat (sl bits 28 36) ≠ 0 then
+        match ofCrc (crc8Check false (sl bits 0 28) (bitsToNat (sl bits 28 36).reverse)) with
+        | .error e => .error e
+        | .ok b => .ok { o with ok := b }
+      else .ok o
 
 /-! ## PI header — CRC-CCITT, no sentinel -/
 
@@ -213,11 +225,11 @@ def dhEnc (body : Bits) : Except IErr Bits := do
 /-- `crc_ok` after `DataHeader.from_bits(bits)`; `fieldsFail` = `fields_from_bits` (the field decoder
 and the constructor) raised.  With a zero (or short) CRC field the constructor regenerates the CRC and
 reports ok; otherwise the verdict is taken over the bits that were received. -/
-def dhDec (bits : Bits) (fieldsFail : Bool) : Except IErr Bool := do
-  if fieldsFail then throw .valueError
-  if bits.length ≥ 96 ∧ bitsToNat (sl bits 80 96) > 0 then
+def dhDec (bits : Bits) (fieldsFail : Bool) : Except IErr Bool :=
+  if fieldsFail then .error .valueError
+  else if bits.length ≥ 96 ∧ bitsToNat (sl bits 80 96) > 0 then
     ofCrc (crc16Check (bitsToBytes (sl bits 0 80)) (bitsToNat (sl bits 80 96)) maskDataHeader)
-  else pure true
+  else .ok true
 
 /-! ## Confirmed rate-1/2, 3/4, 1 data blocks — CRC-9 -/
 
@@ -244,17 +256,20 @@ deriving DecidableEq, Repr
 /-- `RateXXData.__init__(data: bitarray, packet_type, dbsn: bitarray, crc9: bitarray, crc32)` with
 `typeLen` = `packet_type.value` -/
 def rateInit (c : RateCfg) (typeLen : Nat) (dataBits dbsnBits crc9Bits : Bits) (crc32 : Nat) :
-    Except IErr RateObj := do
+    Except IErr RateObj :=
   let data := bitsToBytes dataBits
   -- validate_packet_type
-  if data.length ≠ 0 ∧ data.length ≠ typeLen then throw .assertionError
-  let dbsn := bitsToNat dbsnBits
+  if data.length ≠ 0 ∧ data.length ≠ typeLen then .error .assertionError
   -- RateXXDataTypes(len(self.data))
-  if !(c.members.contains data.length) then throw .valueError
-  let crc9 := bitsToNat crc9Bits.reverse
-  let cval ← ofCrc (Crc.crc9 data dbsn c.mask (.int crc32))
-  let crc9' := if crc9 ≤ 0 then cval else crc9
-  pure ⟨data, dbsn, crc9', crc32, crc9' == cval⟩
+  else if !(c.members.contains data.length) then .error .valueError
+  else
+    let dbsn := bitsToNat dbsnBits
+    let crc9 := bitsToNat crc9Bits.reverse
+    match ofCrc (Crc.crc9 data dbsn c.mask (.int crc32)) with
+    | .error e => .error e
+    | .ok cval =>
+      let crc9' := if crc9 ≤ 0 then cval else crc9
+      .ok ⟨data, dbsn, crc9', crc32, crc9' == cval⟩
 
 /-- `from_bits_typed(bits, Confirmed)` (`last = false`) / `from_bits_typed(bits, ConfirmedLastBlock)` -/
 def rateDec (c : RateCfg) (last : Bool) (bits : Bits) : Except IErr RateObj :=
